@@ -44,6 +44,9 @@ ASSUMPTIONS = [
     "thresh-free expressions, canonical candidate: satisfy_accepted_p2wsh_partial; a hypothesis otherwise)",
     "hcan / noThresh (bounds theorem only): the chosen candidate is canonical (observed: always for sane expressions, "
     "counted per run as sat.canonical) and the expression has no thresh (multi and multi_a are covered)",
+    "read-back (decoder_machine_reads_back_partial): rd .seq (fragment set and and_v chains nested to the left), allTyped, "
+    "shaped; hh: hash160 answers 20 bytes; hkoh: key_hashes files every key of the expression under its hash160; the "
+    "theorem starts from the entry list rents(n), whose equality with _decomposed(script) is the `rents` oracle's",
     "numsOK (T2): every number of the expression is written in at most ten digits",
 ]
 
@@ -691,6 +694,19 @@ def run(ctx):
     typed = {f"{op} {n.context} " + " ".join(tokens(n)) for n in nodes if n.properties for op in ("type", "size", "valid", "bounds")}
     for op, ls in lines.items():
         ctx.stream(op, ls, nontrivial=(lambda line, out: not out.startswith("err") and (line in typed or line.startswith("script"))))
+    # the entry list the read-back theorem (decoder_machine_reads_back_partial) starts the machine on, `Decode.rents`,
+    # against btclib's own `_decomposed(node.script())`, for every generated valid expression of the theorem's fragment
+    # set (the model answers `-` outside it): the step from the compiled script to the entries is NOT proved
+    rn = [n for n in nodes if n.is_valid and n.script_size <= 1200]
+    outs = ctx.model(EXE, [f"rents {n.context} {table(n)} " + " ".join(tokens(n)) for n in rn]) or []
+    for n, out in zip(rn, outs):
+        if out == "ok -":
+            ctx.count("rents", "outside the fragment set")
+            continue
+        real = "ok " + ",".join(f"{op:02x}:{hx(data)}" for op, data in M._decomposed(n.script()))
+        ctx.count("rents", "compared")
+        ctx.oracle("rents", out == real, f"rents {n.context} {n}: model {out[:200]} real {real[:200]}",
+                   witness={"oracle": "rents", "witness": {"context": n.context, "tokens": " ".join(tokens(n))}})
     ctx.stream("pushnum", [f"pushnum {i}" for i in sorted({abs(v) % 2**31 for v in common.boundary_ints(rng)} |
                                                            {rng.randrange(2**31) for _ in range(ctx.n(300))} | set(range(0, 300)))])
     shape_lines = []
